@@ -1,0 +1,56 @@
+//go:build verif
+
+// Verification hooks (build tag "verif"). Add-only: lets the external verification harness (C07)
+// observe WHICH stateless decryptor is run, and in what order, without changing what it computes.
+// Nothing here is compiled into a normal build.
+
+package cipher
+
+import (
+	"crypto/cipher"
+	"time"
+)
+
+// verifTracedAEAD delegates to the wrapped AEAD and reports every Open call.
+type verifTracedAEAD struct {
+	cipher.AEAD
+	onOpen func()
+}
+
+func (a verifTracedAEAD) Open(dst, nonce, ciphertext, additionalData []byte) ([]byte, error) {
+	a.onOpen()
+	return a.AEAD.Open(dst, nonce, ciphertext, additionalData)
+}
+
+// VerifTrace makes the decryptor hold a private copy of its current cipher list whose FIRST
+// cipher reports every Open call through onTry (tryDecryptAt always tries the first cipher first, so
+// onTry fires exactly once per TryDecrypt that reaches the ciphers). The keys, the order of the
+// ciphers and the results are unchanged. The process-wide cipher cache is not touched.
+//
+// armed reports whether the decryptor still holds that traced list (it is replaced when the key
+// epoch changes, i.e. every cipher.KeyRefreshInterval).
+func (d *StatelessDecryptor) VerifTrace(onTry func()) (armed func() bool, err error) {
+	entry, err := getCachedCiphers(d.password, time.Now())
+	if err != nil {
+		return nil, err
+	}
+	traced := &cachedCiphers{
+		cipherList: append([]*aeadBlockCipher(nil), entry.cipherList...),
+		createTime: entry.createTime,
+		epoch:      entry.epoch,
+	}
+	if len(traced.cipherList) > 0 {
+		first := traced.cipherList[0]
+		traced.cipherList[0] = &aeadBlockCipher{
+			aead:     verifTracedAEAD{AEAD: first.aead, onOpen: onTry},
+			aeadType: first.aeadType,
+			key:      first.key,
+		}
+	}
+	d.ciphers.Store(traced)
+	return func() bool { return d.ciphers.Load() == traced }, nil
+}
+
+// VerifUntrace drops whatever cipher list the decryptor holds; the next TryDecrypt reloads it from
+// the process-wide cache.
+func (d *StatelessDecryptor) VerifUntrace() { d.ciphers.Store(nil) }
